@@ -606,8 +606,24 @@ func (fr *Frame) runDeferred(st *State, d deferred, pos token.Pos) {
 func (fr *Frame) execGo(st *State, x *ssa.Go) {
 	// The goroutine body is not executed here (it is verified on its own if it has a contract).
 	var gargs []Val
+	fr.top.goCaps = nil
 	for _, a := range x.Call.Args {
-		gargs = append(gargs, fr.val(st, a))
+		v := fr.val(st, a)
+		gargs = append(gargs, v)
+		fr.top.goCaps = append(fr.top.goCaps, fr.refComps(v)...)
+	}
+	if !x.Call.IsInvoke() {
+		if fv := fr.val(st, x.Call.Value); fv.K == KClosure {
+			for _, b := range fv.Binds {
+				if b.K == KCellPtr {
+					if cv, ok := st.cells[b.Cell]; ok {
+						fr.top.goCaps = append(fr.top.goCaps, fr.refComps(cv)...)
+					}
+				} else {
+					fr.top.goCaps = append(fr.top.goCaps, fr.refComps(b)...)
+				}
+			}
+		}
 	}
 	fr.callHooks(st, "go", gargs, x.Pos()) // "oncall go:" / "callsite go:" hooks count and constrain spawns
 	name := "?"
@@ -775,4 +791,83 @@ func (fr *Frame) ghostCallUpdates(st *State, name string, args []Val, res []Val,
 		}
 		st.ghost[gu.Name] = v
 	}
+}
+
+// refComp is one reference-valued component of a value with the static type it was found at.
+type refComp struct {
+	T types.Type
+	C Term
+}
+
+// refComps lists the reference-valued components of a value (pointers, maps, channels, function
+// values, the objects of strings and slices, the payload of interfaces; arrays are skipped).
+func (fr *Frame) refComps(v Val) []refComp {
+	if v.K != KNormal || v.T == nil {
+		return nil
+	}
+	var out []refComp
+	i := 0
+	var walk func(t types.Type)
+	walk = func(t types.Type) {
+		n := len(fr.en.layout(t))
+		if i+n > len(v.C) {
+			i += n
+			return
+		}
+		switch u := t.Underlying().(type) {
+		case *types.Pointer, *types.Map, *types.Chan, *types.Signature:
+			out = append(out, refComp{t, v.C[i]})
+			i++
+		case *types.Slice:
+			out = append(out, refComp{t, v.C[i]})
+			i += 4
+		case *types.Interface:
+			out = append(out, refComp{t, v.C[i+1]})
+			i += 2
+		case *types.Basic:
+			if u.Kind() == types.String || u.Kind() == types.UnsafePointer {
+				out = append(out, refComp{t, v.C[i]})
+			}
+			i += n
+		case *types.Struct:
+			for k := 0; k < u.NumFields(); k++ {
+				walk(u.Field(k).Type())
+			}
+		default:
+			i += n
+		}
+	}
+	walk(v.T)
+	return out
+}
+
+// mayAlias: can a reference found at static type a point to the object of a value of static type b?
+// (Go's type system without unsafe: same pointer/map/chan type, slices and strings by element type,
+// interfaces and unsafe pointers may hold anything.)
+func mayAlias(a, b types.Type) bool {
+	ua, ub := a.Underlying(), b.Underlying()
+	if _, ok := ua.(*types.Interface); ok {
+		return true
+	}
+	if _, ok := ub.(*types.Interface); ok {
+		return true
+	}
+	if ba, ok := ua.(*types.Basic); ok && ba.Kind() == types.UnsafePointer {
+		return true
+	}
+	elem := func(t types.Type) types.Type {
+		switch u := t.(type) {
+		case *types.Slice:
+			return u.Elem()
+		case *types.Basic:
+			if u.Kind() == types.String {
+				return types.Typ[types.Uint8]
+			}
+		}
+		return nil
+	}
+	if ea, eb := elem(ua), elem(ub); ea != nil || eb != nil {
+		return ea != nil && eb != nil && types.Identical(ea.Underlying(), eb.Underlying())
+	}
+	return types.Identical(ua, ub)
 }
